@@ -561,7 +561,7 @@ class ObjFn(FnTr):
                     if pvv is None:
                         raise Untranslatable("push_back argument")
                     lst = self.pktlists[b0["referencedDecl"]["id"]]
-                    B.append("let %s := %s ++ [%s]" % (lst, lst, pvv))
+                    B.append("let %s := %s ++ [Sum.inl %s]" % (lst, lst, pvv))
                     return None
                 f0 = self.this_field(me["inner"][0])
                 if f0 is not None and f0[1] == "map" and me.get("name") == "erase" and len(inner) == 2:
@@ -805,8 +805,8 @@ class ObjFn(FnTr):
                     if e.get("kind") == "CXXConstructExpr" and not e.get("inner"):
                         nm = self.vname(d["name"])
                         self.pktlists[d["id"]] = nm
-                        self.local_ty[nm] = "List PktOut"
-                        B.append("let %s := ([] : List PktOut)" % nm)
+                        self.local_ty[nm] = "List (PktOut ⊕ F)"
+                        B.append("let %s := ([] : List (PktOut ⊕ F))" % nm)
                         continue
                     raise Untranslatable("packet list initialiser")
                 EO = getattr(self.OT, "elem", None)
@@ -920,7 +920,7 @@ class ObjFn(FnTr):
                 if nm not in self.ext_fns:
                     self.ext_fns.append(nm)
                 self.fn.uses_mem = True
-                return self.with_binds(B, pad + "pure (s, %s m %s)" % (nm, " ".join(argv)), ind)
+                return self.with_binds(B, pad + "pure (s, (%s m %s).map Sum.inr)" % (nm, " ".join(argv)), ind)
             raise Untranslatable("returned packet list")
         if kind == "ReturnStmt" and s.get("inner"):
             # returning the moved-out frames
@@ -958,7 +958,7 @@ class ObjFn(FnTr):
         if mem:
             params = "(m : Bytes) " + params
             args = "m " + args
-        code = ["def %s (fuel : Nat) (s : %s_St) %s : Option (%s) :=" % (name, self.cls.lean, params, ret_ty),
+        code = ["def %s %s(fuel : Nat) (s : %s_St) %s : Option (%s) :=" % (name, "{F : Type} " if "⊕ F" in params + ret_ty else "", self.cls.lean, params, ret_ty),
                 "  match fuel with",
                 "  | 0 => none",
                 "  | fuel + 1 => do"]
@@ -1069,9 +1069,9 @@ class ObjTranslator:
             ps = []
             for nm, t in f.params:
                 ps.append("(%s : %s)" % (nm, "PktIn" if t[0] == "pkt" else ("OPkt" if t[0] == "opkt" else ("Bool" if t[0] == "b" else "Nat"))))
-            rt = {"v": "Unit", "b": "Bool", "frames": "List Bytes", "pktlist": "List PktOut", "pktptr": "PktOut"}.get(f.ret[0], "Nat")
+            rt = {"v": "Unit", "b": "Bool", "frames": "List Bytes", "pktlist": "List (PktOut ⊕ F)", "pktptr": "PktOut"}.get(f.ret[0], "Nat")
             for e_ in getattr(f, "ext_fns", []):
-                ps.append("(%s : Bytes → Nat → Nat → List PktOut)" % e_)
+                ps.append("(%s : Bytes → Nat → Nat → List F)" % e_)
             if getattr(f, "outbuf", False):
                 rt = "Bytes"
             for o in getattr(f, "opaque", []):
@@ -1079,7 +1079,7 @@ class ObjTranslator:
             out.append("/-- `%s` -/" % f.qual)
             if f.uses_mem:
                 ps.insert(0, "(m : Bytes)")
-            out.append("def %s_obj %s(s : %s_St) %s : Option (%s_St × %s) := do" % (f.lean, "(fuel : Nat) " if f.has_fuel else "", self.cls.lean,
+            out.append("def %s_obj %s%s(s : %s_St) %s : Option (%s_St × %s) := do" % (f.lean, "{F : Type} " if f.ret[0] == "pktlist" else "", "(fuel : Nat) " if f.has_fuel else "", self.cls.lean,
                                                                                     " ".join(ps), self.cls.lean, rt))
             out.append(f.body)
             out.append("")
@@ -1491,8 +1491,13 @@ class StTranslator(ObjTranslator):
 #     observable through the translated functions); its constructors are followed through their base initialisers;
 #   * methods are `State -> args -> Option (State x result)`, constructors `args -> Option State`, free functions
 #     `args -> Option result`; a non-const reference parameter of a record class is in-out (its final value is an extra result);
-#     two reference parameters / `this` and a reference parameter denote DISTINCT objects, except in the `_self` variant that is
-#     generated (from the same body) for a method that compares `this` with the address of a parameter;
+#     two reference parameters / `this` and a reference parameter denote DISTINCT objects in the function of the plain name; from the
+#     same body the ALIASING variants are generated: `…_self_pv` for a non-const method with a reference parameter of its own class
+#     (that parameter IS `*this`: no Lean parameter, every read / write through it goes to the current `s`; a comparison of `this`
+#     with its address is `true`) and `…_same_pv` for a function with two non-const reference parameters of one record class (both
+#     denote the one object `s`).  A call whose object arguments are the same place calls the callee's aliasing variant;
+#     `std::swap(a, a)` is translated as the moves it is (read, read, write, write: the identity); an overlap the variants cannot
+#     express (an object and a sub-object of it, a const reference to a mutated argument of a free function) fails closed;
 #   * the comparison of two pointers into the byte vectors of two objects cannot be decided from values: it is the explicit
 #     Bool parameter `g_samePtr` of the function (and of its callers);
 #   * loops are recursion on fuel; a `return` inside a loop leaves it with `some value`.
@@ -1625,6 +1630,15 @@ class Place:
         p = Place(self.kind, ty, self.name, self.base, self.field, self.const)
         return p
 
+    def key(self):
+        """access path: two places are the same object iff their paths are equal, and overlap iff one is a prefix of the other
+        (different variables are different objects: by-value locals and, by the convention of this mode, distinct parameters)"""
+        if self.kind == "var":
+            return (("v", self.name),)
+        if self.kind == "field":
+            return self.base.key() + (("f", self.field),)
+        return self.base.key() + (("*",),)
+
 
 class PvFnInfo:
     """what a caller needs to know about a translated function"""
@@ -1632,11 +1646,12 @@ class PvFnInfo:
 
 
 class PvFn(ObjFn):
-    def __init__(self, PT, node, alias=False):
+    def __init__(self, PT, node, alias=None):
         FnTr.__init__(self, PT.T, node)
         ObjFn.__init__(self, PT, node)
         self.PT = PT
-        self.alias = alias
+        self.alias = alias      # None | "self" (a reference parameter IS *this) | "same" (two reference parameters are one object)
+        self.alias_const = True # "self": the aliased parameter is a const reference
         self.objs = {}          # decl id -> Place of an object / flat / unique_ptr parameter or local
         self.inout = []         # (lean name, lean type) of the non-const reference parameters, in order
         self.gparams = []       # explicit Bool parameters standing for undecidable pointer comparisons
@@ -1718,10 +1733,12 @@ class PvFn(ObjFn):
             return None
         if k == "DeclRefExpr":
             did = n["referencedDecl"]["id"]
-            if self.alias and did == self.alias_of:
+            if self.alias == "self" and did == self.alias_of:
                 p = self.this_place()
-                return Place(p.kind, p.ty, p.name, p.base, p.field, const=True)
+                return Place(p.kind, p.ty, p.name, p.base, p.field, const=p.const or self.alias_const)
             return self.objs.get(did)
+        if k == "CallExpr" and len(n["inner"]) == 2 and self.is_std_move(n):
+            return self.place(n["inner"][1], B)      # std::move(x) is x (a cast to an rvalue reference)
         if k == "CXXOperatorCallExpr" and len(n["inner"]) == 2:
             nm = self.strip_casts(n["inner"][0]).get("referencedDecl", {}).get("name")
             if nm in ("operator*", "operator->"):
@@ -1757,6 +1774,20 @@ class PvFn(ObjFn):
                 return base.retyped(ty)            # the object IS its member
             return Place("field", ty, base=base, field=nm, const=base.const)
         return None
+
+    def is_std_move(self, n):
+        rd = self.strip_casts(n["inner"][0]).get("referencedDecl", {})
+        return rd.get("name") == "move" and rd.get("id") not in self.tu.nodes
+
+    def moved_uptr(self, n, B):
+        """`std::move(p)` of a unique_ptr place consumed by a move constructor / move assignment: the value; `p` is left null"""
+        p = self.place(n["inner"][1], B)
+        if p is None or p.ty[0] != "uptr":
+            raise Untranslatable("std::move of something that is not a unique_ptr member / local")
+        t = self.fresh()
+        B.append("let %s := %s" % (t, p.read(self, B)))
+        p.write(self, "none", B)
+        return t
 
     # ------------------------------------------------------------------ lvalues of scalars
     def lv(self, n, B):
@@ -1872,6 +1903,11 @@ class PvFn(ObjFn):
         if k == "CallExpr" and self.strip_casts(x["inner"][0]).get("referencedDecl", {}).get("name") == "make_unique" \
                 and self.strip_casts(x["inner"][0])["referencedDecl"].get("id") not in self.tu.nodes:
             return self.make_unique(x, B)
+        if k == "CallExpr" and len(x["inner"]) == 2 and self.is_std_move(x):
+            pvx = self.pvty(x)
+            if pvx is not None and pvx[0] == "uptr":
+                return self.moved_uptr(x, B)
+            raise Untranslatable("std::move of an object used as a value")
         if k in ("CallExpr", "CXXMemberCallExpr") or (k == "CXXOperatorCallExpr" and self.strip_casts(x["inner"][0]).get("referencedDecl", {}).get("name") not in ("operator*", "operator->")):
             did = self.callee_decl(x)
             if did is not None and self.PT.is_pv_decl(did):
@@ -1926,6 +1962,9 @@ class PvFn(ObjFn):
                 apv = self.pvty(a)
                 if apv is not None and apv[0] == "uptr" and a.get("kind") == "MaterializeTemporaryExpr":
                     return self.val(a, B)                         # ownership taken over from a temporary (also unique_ptr<Derived>)
+                sa = self.strip(a)
+                if apv is not None and apv[0] == "uptr" and sa.get("kind") == "CallExpr" and len(sa["inner"]) == 2 and self.is_std_move(sa):
+                    return self.moved_uptr(sa, B)                 # … from std::move(place): the place is left null
             raise Untranslatable("unique_ptr constructor " + ct)
         if pv[0] == "wrec":
             # a trivially copyable wire record copied out of the memory: its bytes
@@ -1945,8 +1984,8 @@ class PvFn(ObjFn):
             if len(args) != 1:
                 raise Untranslatable("copy of a flat object")
             return self.val(args[0], B)                           # implicit copy / move of a single-scalar class: the value
-        if cm == "move":
-            raise Untranslatable("move construction of " + cls.qual)
+        if cm == "move" and (c.get("isImplicit") or c.get("explicitlyDefaulted") or d is None):
+            raise Untranslatable("defaulted move construction of " + cls.qual)
         if d is None:
             raise Untranslatable("constructor %s of %s has no body" % (ct, cls.qual))
         return self.call_ctor(d, args, B)
@@ -2106,8 +2145,10 @@ class PvFn(ObjFn):
         parts += argv
         return " ".join(parts)
 
-    def args_for(self, g, args, B):
+    def args_for(self, g, args, B, dropped=None):
         args = [a for a in args if a.get("kind") != "CXXDefaultArgExpr"]
+        if dropped is not None:
+            args = [a for i, a in enumerate(args) if i != dropped]
         if len(args) != len(g.params):
             raise Untranslatable("argument count")
         argv, ios = [], []
@@ -2164,7 +2205,8 @@ class PvFn(ObjFn):
                 args = args[1:]
                 if thisp is None:
                     raise Untranslatable("object of a member operator")
-        argv, ios = self.args_for(g, args, B)
+        g, dropped = self.aliasing_variant(d, g, thisp, args, B)
+        argv, ios = self.args_for(g, args, B, dropped)
         thisv = None
         if g.kind == "method":
             if thisp.ty[0] not in ("obj", "flat") or (thisp.ty[1].root if thisp.ty[0] == "obj" else thisp.ty[1]) is not (g.cls.root if g.cls.kind != "flat" else g.cls):
@@ -2193,6 +2235,52 @@ class PvFn(ObjFn):
         for p, nm in zip(ios, ionames):
             p.write(self, nm, B)
         return r
+
+    def aliasing_variant(self, d, g, thisp, args, B):
+        """(function to call, index of the dropped argument or None): if a mutated object argument of the call (`this` of a non-const
+        method, an argument for a non-const reference parameter) is the same place as another object reference argument, the
+        callee's `_self` / `_same` variant is called; a partial overlap cannot be expressed"""
+        args = [a for a in args if a.get("kind") != "CXXDefaultArgExpr"]
+        if len(args) != len(g.params):
+            raise Untranslatable("argument count")
+        refs = []       # (position, place key, mutated)
+        if g.kind == "method" and thisp is not None and g.cls.kind != "flat":
+            refs.append(("this", thisp.key(), not g.const))
+        for i, ((pn, pt, mode), isref, a) in enumerate(zip(g.params, g.param_ref, args)):
+            if pt[0] == "obj" and isref:
+                pl = self.place(a, [])
+                if pl is not None:
+                    refs.append((i, pl.key(), mode == "inout"))
+                elif mode == "inout":
+                    raise Untranslatable("argument for a reference parameter")
+        pairs = []
+        for x in range(len(refs)):
+            for y in range(x + 1, len(refs)):
+                (px, kx, mx), (py, ky, my) = refs[x], refs[y]
+                if not (mx or my):
+                    continue                    # both only read: the values at the call are exact
+                n_ = min(len(kx), len(ky))
+                if kx[:n_] != ky[:n_]:
+                    continue                    # different objects
+                if kx != ky:
+                    raise Untranslatable("an argument of the call is a sub-object of another, mutated argument")
+                pairs.append((px, py, mx and my))
+        if not pairs:
+            return g, None
+        if len(pairs) > 1:
+            raise Untranslatable("more than two arguments of the call are the same object")
+        px, py, both = pairs[0]
+        if px == "this":
+            g2 = self.PT.translate(d, alias="self")
+            if g2.alias_index != py:
+                raise Untranslatable("the argument that is *this is not the parameter of the `_self` variant")
+            return g2, py
+        if not both:
+            raise Untranslatable("a const reference argument is the same object as a mutated reference argument")
+        g2 = self.PT.translate(d, alias="same")
+        if g2.same_pair != (px, py):
+            raise Untranslatable("the two arguments that are one object are not the pair of the `_same` variant")
+        return g2, py
 
     def call(self, n, B, want_value):
         did = self.callee_decl(n)
@@ -2317,6 +2405,12 @@ class PvFn(ObjFn):
                     self.call_pv(s, B)
                     return
             raise Untranslatable("assignment operator on " + str(self.strip(lhs).get("kind")))
+        if k == "CXXMemberCallExpr" and s["inner"][0].get("kind") == "MemberExpr" and s["inner"][0].get("name") == "reset" \
+                and all(a.get("kind") == "CXXDefaultArgExpr" for a in s["inner"][1:]):
+            p = self.place(s["inner"][0]["inner"][0], B)
+            if p is not None and p.ty[0] == "uptr":
+                p.write(self, "none", B)            # the owned object is destroyed: not observable
+                return
         if k == "CallExpr":
             c = self.strip_casts(s["inner"][0])
             rd = c.get("referencedDecl", {})
@@ -2555,7 +2649,7 @@ class PvFn(ObjFn):
             if pcls is None:
                 lean += "_" + self.sig_suffix(ps[:1])
         if self.alias:
-            lean += "_self"
+            lean += "_" + self.alias
         if PT.names.get(lean + "_pv", id(n)) != id(n) and ps:
             lean += "_" + self.sig_suffix(ps)
         if PT.names.get(lean + "_pv", id(n)) != id(n):
@@ -2592,7 +2686,17 @@ class PvFn(ObjFn):
                     info.has_value = True
         # ---- parameters
         info.params = []
+        info.param_ref = []
+        info.alias_index = None
+        info.same_pair = None
         body = TU.body_of(n)
+        alias_i = PT.alias_param.get(id(n)) if self.alias == "self" else None
+        same_ij = PT.same_param.get(id(n)) if self.alias == "same" else None
+        if self.alias == "self" and (alias_i is None or info.kind != "method"):
+            raise Untranslatable("no reference parameter that could be *this")
+        if self.alias == "same" and (same_ij is None or info.kind == "method"):
+            raise Untranslatable("no two reference parameters of one class")
+        same_place = None
         for i, c in enumerate(ps):
             q = c.get("type", {}).get("qualType", "").strip()
             pv = PT.pvtype(c.get("type"))
@@ -2603,14 +2707,34 @@ class PvFn(ObjFn):
                 self.locrec[c["id"]] = (nm, pv[1])
                 self.local_ty[nm] = "Bytes"
                 info.params.append((nm, pv, "val"))
+                info.param_ref.append(False)
                 continue
             if pv is not None:
                 isref = q.endswith("&")
                 const = q.startswith("const")
                 if pv[0] == "uptr" and isref:
                     raise Untranslatable("unique_ptr by reference")
-                if self.alias and pv[0] == "obj" and isref and const and pv[1] is pcls and self.alias_of in (None, c["id"]) and PT.alias_param.get(id(n)) == i:
+                if alias_i == i:
+                    if not (pv[0] == "obj" and isref and pv[1].root is pcls.root):
+                        raise Untranslatable("the parameter that is *this is not a reference to the class")
                     self.alias_of = c["id"]       # this parameter IS *this: no Lean parameter
+                    self.alias_const = const
+                    info.alias_index = i
+                    continue
+                if same_ij is not None and i in same_ij:
+                    if not (pv[0] == "obj" and isref and not const):
+                        raise Untranslatable("the parameters that are one object are not non-const references")
+                    if same_place is None:
+                        # both parameters are the one object `s`
+                        same_place = Place("var", pv[:2], name="s", const=False)
+                        self.inout.append(("s", PT.ltype_of(pv)))
+                        info.params.append(("s", pv, "inout"))
+                        info.param_ref.append(True)
+                        self.local_ty["s"] = PT.ltype_of(pv)
+                        info.same_pair = tuple(same_ij)
+                    elif same_place.ty[1].root is not pv[1].root:
+                        raise Untranslatable("the parameters that are one object have different classes")
+                    self.objs[c["id"]] = same_place
                     continue
                 if isref and not const:
                     if pv[0] != "obj":
@@ -2621,6 +2745,7 @@ class PvFn(ObjFn):
                 else:
                     self.objs[c["id"]] = Place("var", pv[:2], name=nm, const=isref or const)
                     info.params.append((nm, pv, "val"))
+                info.param_ref.append(isref)
                 self.local_ty[nm] = PT.ltype_of(pv)
                 continue
             if strip_cv(q) in ("void *", "void*"):
@@ -2634,6 +2759,7 @@ class PvFn(ObjFn):
             self.locals[c["id"]] = nm
             self.local_ty[nm] = "Bool" if t[0] == "b" else "Nat"
             info.params.append((nm, t, "val"))
+            info.param_ref.append(False)
         f.params = info.params
         # ---- constructor initialisers
         pre = []
@@ -2644,7 +2770,7 @@ class PvFn(ObjFn):
         if self.outbuf is not None:
             code = "  let out_ := ([] : Bytes)\n" + code
         if self.addr_cmp:
-            code = "  let g_sameObject := %s\n" % ("true" if self.alias else "false") + code
+            code = "  let g_sameObject := %s\n" % ("true" if self.alias == "self" else "false") + code
         f.body = code
         info.lean = f.lean
         info.qual = f.qual
@@ -2654,9 +2780,20 @@ class PvFn(ObjFn):
         info.aux = self.aux
         info.body = code
         info.addr_cmp = self.addr_cmp
-        info.alias_index = None
-        if self.addr_cmp and self.alias_of is not None:
-            info.alias_index = [i for i, c in enumerate(ps) if c["id"] == self.alias_of][0]
+        if self.alias is None:
+            # which parameters the aliasing variants identify: the one `this` is compared with, else the first reference to the own class;
+            # the first two non-const references to one record class
+            if self.addr_cmp and self.alias_of is not None:
+                info.alias_index = [i for i, c in enumerate(ps) if c["id"] == self.alias_of][0]
+            elif info.kind == "method" and not info.const and pcls.kind != "flat":
+                own = [i for i, ((pn, pt, mode), isref) in enumerate(zip(info.params, info.param_ref)) if pt[0] == "obj" and isref and pt[1].root is pcls.root]
+                info.alias_index = own[0] if own and len(info.params) == len(ps) else None
+            if info.kind != "method" and len(info.params) == len(ps):
+                io = [i for i, (pn, pt, mode) in enumerate(info.params) if mode == "inout"]
+                for a_ in io:
+                    for b_ in io:
+                        if a_ < b_ and info.same_pair is None and info.params[a_][1][1].root is info.params[b_][1][1].root:
+                            info.same_pair = (a_, b_)
         # signature
         sig = []
         if self.has_fuel:
@@ -2671,6 +2808,11 @@ class PvFn(ObjFn):
         info.sig = " ".join(sig)
         info.rtype = self.result_type()
         info.doc = "`%s` %s" % (f.qual, qt)
+        if self.alias == "self":
+            info.doc += "\n    ALIASING VARIANT of the same body: the reference parameter `%s` denotes `*this` (it is no Lean parameter; every read / write through it\n    goes to the current `s`)" % ps[info.alias_index].get("name", "?")
+        if self.alias == "same":
+            info.doc += "\n    ALIASING VARIANT of the same body: the reference parameters `%s` and `%s` denote the one object `s`; `std::swap(a, a)` is the moves it is\n    (`tmp = a; a = a; a = tmp`, for a `unique_ptr` the exchange of its pointer with itself): read, read, write, write — the identity" % (
+                ps[info.same_pair[0]].get("name", "?"), ps[info.same_pair[1]].get("name", "?"))
         return info
 
     def ctor_inits(self, n, pcls):
@@ -2771,7 +2913,8 @@ class PvTranslator:
         self.failed = {}
         self.notes = {}
         self.names = {}
-        self.alias_param = {}
+        self.alias_param = {}     # id(definition) -> index of the parameter that is *this in the `_self` variant
+        self.same_param = {}      # id(definition) -> the two parameter indices that are one object in the `_same` variant
         self.cls = None
 
     # ---- types
@@ -2877,7 +3020,9 @@ class PvTranslator:
     def key_of(self, defnode):
         return self.T.tu.qualname(defnode) + " " + defnode.get("type", {}).get("qualType", "")
 
-    def translate(self, defnode, alias=False):
+    def translate(self, defnode, alias=None):
+        if alias is not None:
+            self.translate(defnode)          # the plain function first: it determines which parameters the variant identifies
         key = (id(defnode), alias)
         if key in self.fns:
             f = self.fns[key]
@@ -2891,32 +3036,34 @@ class PvTranslator:
             f = PvFn(self, defnode, alias).run_pv()
         except Untranslatable as e:
             self.fns[key] = e
-            self.failed[self.key_of(defnode) + (" [this == &parameter]" if alias else "")] = str(e)
+            self.failed[self.key_of(defnode) + self.variant_tag(alias)] = str(e)
             raise
         except (KeyError, IndexError, TypeError, AttributeError, ValueError, AssertionError) as e:
             u = Untranslatable("unexpected AST shape %r" % (e,))
             self.fns[key] = u
-            self.failed[self.key_of(defnode) + (" [this == &parameter]" if alias else "")] = str(u)
+            self.failed[self.key_of(defnode) + self.variant_tag(alias)] = str(u)
             raise u
         self.fns[key] = f
         self.order.append(f)
-        if not alias and not f.addr_cmp:
-            # a mutated object (`this` of a non-const method, a non-const reference parameter) and another reference parameter of the same class
-            roots = [t[1].root for _, t, mode in f.params if t[0] == "obj" and mode == "inout"]
-            if f.kind == "method" and not f.const and f.cls.kind != "flat":
-                roots.append(f.cls.root)
-            refs = [t[1].root for _, t, mode in f.params if t[0] == "obj"]
-            if any(refs.count(r) + (1 if (f.kind == "method" and f.cls.kind != "flat" and f.cls.root is r) else 0) >= 2 for r in roots):
-                self.notes[self.key_of(defnode) + " [two of its object arguments are the same object]"] = \
-                    "not generated: `%s` is for DISTINCT objects (no address comparison in the body to derive a `_self` variant from)" % f.lean
-        if f.addr_cmp and not alias and f.alias_index is not None:
-            # the same body once more, with the compared parameter being *this
-            self.alias_param[id(defnode)] = f.alias_index
-            try:
-                self.translate(defnode, alias=True)
-            except Untranslatable:
-                pass
+        if alias is None:
+            # the aliasing variants, from the same body (a failure concerns the variant only and is listed)
+            if f.alias_index is not None:
+                self.alias_param[id(defnode)] = f.alias_index
+                try:
+                    self.translate(defnode, alias="self")
+                except Untranslatable:
+                    pass
+            if f.same_pair is not None:
+                self.same_param[id(defnode)] = f.same_pair
+                try:
+                    self.translate(defnode, alias="same")
+                except Untranslatable:
+                    pass
         return f
+
+    @staticmethod
+    def variant_tag(alias):
+        return {None: "", "self": " [variant: a reference parameter is *this]", "same": " [variant: two reference parameters are one object]"}[alias]
 
     def functions_of(self, quals, friends_of):
         """every function with a body that belongs to the classes `quals` (methods, constructors) or takes / returns one of `friends_of` by name"""
